@@ -54,6 +54,18 @@ def lex(src):
     return out
 
 
+def expand_alts(pat):
+    """`(A | B)` and `x @ (A | B)` as separate alternatives"""
+    if pat[0] == "por":
+        out = []
+        for q in pat[1]:
+            out += expand_alts(q)
+        return out
+    if pat[0] == "pat":
+        return [("pat", pat[1], q) for q in expand_alts(pat[2])]
+    return [pat]
+
+
 class P:
     def __init__(self, toks):
         self.t = toks
@@ -369,19 +381,32 @@ class P:
         while self.at("|"):
             self.eat("|")
             ps.append(self.pattern())
-        return ps
+        out = []
+        for p_ in ps:
+            out += expand_alts(p_)
+        return out
 
     def pattern(self):
         k, v = self.kind(), self.peek()
         if v == "(":
             self.eat("(")
             ps = []
+            alts = False
             while not self.at(")"):
                 ps.append(self.pattern())
                 if self.at(","):
                     self.eat(",")
+                elif self.at("|"):
+                    self.eat("|")
+                    alts = True
             self.eat(")")
+            if alts:
+                return ("por", ps)
             return ("ptuple", ps)
+        if k == "id" and self.peek(1) == "@" and self.kind(1) == "op":
+            name = self.next()
+            self.eat("@")
+            return ("pat", name, self.pattern())
         if k == "int" or (v == "-" and self.kind(1) == "int"):
             neg = False
             if v == "-":
